@@ -30,7 +30,21 @@ Mode B (bounded, never counted as proved): the real solvers on real property dat
 """
 import os
 import sys
+import atexit
+import shutil
+import tempfile
 import itertools
+
+if 'NUMBA_CACHE_DIR' not in os.environ:
+    # dew_point.gamma_iter is @njit(cache=True) with a function-typed argument: every process adds its own entry to the
+    # on-disk index next to the source, and re-saving an index that holds entries of other processes intermittently raises
+    # ReferenceError('underlying object has vanished') inside numba (seen in mode B on /repo).  Give this run a private,
+    # empty numba cache (must happen before thermosteam imports numba); nothing is written into the tree under check.
+    _numba_dir = tempfile.mkdtemp(prefix='verif_C08_numba_')
+    os.environ['NUMBA_CACHE_DIR'] = _numba_dir
+    _main_pid = os.getpid()
+    atexit.register(lambda: os.getpid() == _main_pid and shutil.rmtree(_numba_dir, ignore_errors=True))
+
 import numpy as np
 import thermosteam as tmo
 from thermosteam import equilibrium as eq
